@@ -16,10 +16,13 @@ new window) and `fix: F09c` (a window-size change drops the stored window end): 
 history in the domain `clean` = monotone clock ∧ positive window sizes (not a finding class: a zero window
 panics, and the plugin layer never produces such a limiter request).
 
+`fix: F09b` made the cap an integer computation (`capUnits`, ratio in units of 1e-8): `cap_is_exact_share` and
+`spec_holds_exact_cap` tie it to the exact rational share; `fix: F09d` made metrics scrapes read-only.
+
 Still open:
-  * F09b  float64 cap ≠ exact rational cap: outside the kernel; the theorems are relative to `cap`,
-          `cap_float_witness` shows what a cap of 8 against the exact 7 means; that Go computes 8 is a TEST
-          (`#guard` in the model + corpus/C09/F09b.ops replayed on the real code).
+  * F09e  production wiring (identity obfuscator): `TrimSpace` folds group values that differ only in surrounding
+          white space into one counter while the allocation table tells them apart
+          (`plugin_spec_holds_groups_partial` + `group_whitespace_violation_witness`).
 -/
 namespace LunarVerif.C09
 
@@ -203,20 +206,29 @@ theorem window_bound_all_schedules (cap : CapFn) (calls : List (Call κ)) (sched
 
 end
 
-/-! ### Open finding F09b -/
+/-! ### The cap the code computes is the exact share (fix F09b) -/
+
+/-- `scaledCeil` (integers, ratio in units of 1e-8) is exactly "(allowed + spill-over) × percentage, rounded up"
+    for every percentage with at most six decimals (and for the ungrouped ratio 1). -/
+theorem cap_is_exact_share (total : Int) (r : Ratio) (h6 : sixDecimals r = true) :
+    capUnits total r = capExact total r :=
+  capUnits_eq_capExact total r h6
+
+/-- Connection theorem WITHOUT an opaque cap: every run of the model with the code's cap (`capUnits`) satisfies
+    the Spec evaluated with the EXACT rational cap, for percentages with at most six decimals. -/
+theorem spec_holds_exact_cap {κ : Type} [DecidableEq κ] (rs : List (Req κ))
+    (hclean : clean (runL capUnits [] rs) = true) (h6 : ∀ r ∈ rs, sixDecimals r.wd.ratio = true) :
+    holds capExact (runL capUnits [] rs) = true := by
+  rw [← holds_congr_cap capUnits capExact]
+  · exact spec_holds capUnits rs hclean
+  · intro e he total
+    have hin : e.req ∈ rs := by
+      have := runL_inputs capUnits rs ([] : State κ)
+      rw [← this]
+      exact List.mem_map.mpr ⟨e, he, rfl⟩
+    exact capUnits_eq_capExact total _ (h6 e.req hin)
 
 -- (`wd1 Wsec allowed` = window data of an ungrouped remedy: `Wsec` seconds, `allowed` per window, spill-over off)
-
-/-- F09b (the part that is a theorem).  The share "100 requests × 7 %, rounded up" is exactly 7; a limiter
-    whose cap function answers 8 there (as Go's float64 computation does — a TEST, not a theorem) lets 8
-    requests pass in one grid window, and the property evaluated with the exact cap fails on its history. -/
-theorem cap_float_witness :
-    capExact 100 (.pct 7 1) = 7 ∧
-    ∃ rs : List (Req Unit), clean (runL (fun _ _ => 8) [] rs) = true ∧
-      holds (fun _ _ => 8) (runL (fun _ _ => 8) [] rs) = true ∧
-      holds capExact (runL (fun _ _ => 8) [] rs) = false := by
-  refine ⟨by decide, (List.range 9).map (fun i => ⟨(), 1000500000000 + i, ⟨1000000000, 100, .pct 7 1, false, 0⟩⟩),
-    ?_, ?_, ?_⟩ <;> decide
 
 /-! ### Plugin layer: group header → key, allocation table, default behaviours, rejection status -/
 
@@ -232,13 +244,13 @@ theorem key_of_remedy (r : Remedy) (hs : List (String × String)) (key : Key) (w
     | (exact absurd h (by simp))
     | skip
 
-/-- … and, for a remedy with an allocation table, the lower-cased header name and the request's value of
-    that header (the code hashes the value; the hash is modelled as injective).  Together with `projection`:
-    counters of different remedies and different groups never influence each other. -/
+/-- … and, for a remedy with an allocation table, the lower-cased header NAME and the request's value of that
+    header as `buildGroupID` normalises it (`normGroup`: identity wiring strips surrounding white space and
+    keeps the letter case; the MD5 hash is modelled as injective). -/
 theorem key_of_group (r : Remedy) (hs : List (String × String)) (key : Key) (wd : WindowData)
     (a : Alloc) (hn : String) (h : resolve r hs = .limited key wd)
     (ha : r.alloc = some a) (hg : a.groupBy = some hn) :
-    key.group = some (hn.toLower, lookupHdr hs hn) := by
+    key.group = some (hn.toLower, normGroup r.identityHash (lookupHdr hs hn)) := by
   unfold resolve at h
   rw [ha] at h
   dsimp only at h
@@ -271,7 +283,90 @@ theorem plugin_spec_holds (cap : CapFn) (ps : List PReq) (hW : ∀ p ∈ ps, p.r
   rw [plugin_is_limiter_run cap ps hW] at hclean ⊢
   exact spec_holds cap _ hclean
 
+/-! ### Groups as the allocation table distinguishes them (what the judge evaluates) -/
+
+/-- Same counter ⇔ same normalised group value: two requests under one remedy configuration use the same counter
+    key iff their group-header values agree after `buildGroupID`'s normalisation.  Nothing but the header NAME is
+    case-folded, so values differing in letter case never share a counter. -/
+theorem group_counter_iff (r : Remedy) (hs₁ hs₂ : List (String × String)) (k₁ k₂ : Key) (w₁ w₂ : WindowData)
+    (a : Alloc) (hn : String) (h₁ : resolve r hs₁ = .limited k₁ w₁) (h₂ : resolve r hs₂ = .limited k₂ w₂)
+    (ha : r.alloc = some a) (hg : a.groupBy = some hn) :
+    k₁ = k₂ ↔ normGroup r.identityHash (lookupHdr hs₁ hn) = normGroup r.identityHash (lookupHdr hs₂ hn) := by
+  have r₁ := key_of_remedy r hs₁ k₁ w₁ h₁
+  have r₂ := key_of_remedy r hs₂ k₂ w₂ h₂
+  have g₁ := key_of_group r hs₁ k₁ w₁ a hn h₁ ha hg
+  have g₂ := key_of_group r hs₂ k₂ w₂ a hn h₂ ha hg
+  obtain ⟨n₁, q₁⟩ := k₁
+  obtain ⟨n₂, q₂⟩ := k₂
+  simp only at r₁ r₂ g₁ g₂
+  subst r₁ r₂ g₁ g₂
+  simp
+
+/-- … in particular with the MD5 wiring, and with the identity wiring for values without surrounding white
+    space: distinct group values ⇒ distinct counters, same value ⇒ same counter (exactly the allocation
+    table's notion of a group). -/
+theorem group_counter_exact (r : Remedy) (hs₁ hs₂ : List (String × String)) (k₁ k₂ : Key) (w₁ w₂ : WindowData)
+    (a : Alloc) (hn : String) (h₁ : resolve r hs₁ = .limited k₁ w₁) (h₂ : resolve r hs₂ = .limited k₂ w₂)
+    (ha : r.alloc = some a) (hg : a.groupBy = some hn)
+    (hnorm : r.identityHash = false ∨
+      (goTrim (lookupHdr hs₁ hn) = lookupHdr hs₁ hn ∧ goTrim (lookupHdr hs₂ hn) = lookupHdr hs₂ hn)) :
+    k₁ = k₂ ↔ lookupHdr hs₁ hn = lookupHdr hs₂ hn := by
+  rw [group_counter_iff r hs₁ hs₂ k₁ k₂ w₁ w₂ a hn h₁ h₂ ha hg]
+  rcases hnorm with h | ⟨h1, h2⟩
+  · simp [normGroup, h]
+  · cases hid : r.identityHash <;> simp [normGroup, h1, h2]
+
+/-- Connection theorem for the judge's grouping (partial: the class of finding F09e is excluded): with the
+    limiter events keyed by (remedy, group value exactly as the allocation table matches it), every model run
+    whose counter keys tell the groups apart the same way satisfies the Spec — per group and aligned window, the
+    group's own share. -/
+theorem plugin_spec_holds_groups_partial (cap : CapFn) (ps : List PReq) (hW : ∀ p ∈ ps, p.remedy.winSec ≠ 0)
+    (hclean : clean (observe ps (pluginRun cap [] ps)) = true)
+    (hfaith : groupFaithful (observeP ps (pluginRun cap [] ps)) = true) :
+    holds cap (observeS ps (pluginRun cap [] ps)) = true := by
+  have h := plugin_spec_holds cap ps hW hclean
+  rw [← observeP_code, holds_map_rekey] at h
+  rw [observeS, holds_map_rekey, ← h]
+  apply holdsOn_congr
+  intro a ha b hb
+  simp only [groupFaithful, List.all_eq_true, beq_iff_eq] at hfaith
+  exact (hfaith a ha b hb).symm
+
+/-- F09e.  Production (identity) wiring: the groups " a" and "a" are two rows of the allocation table (50 % of 4
+    each) but `TrimSpace` folds them into one counter: after " a" used its own share, the first request of "a" is
+    rejected although that group sent nothing. -/
+theorem group_whitespace_violation_witness :
+    ∃ ps : List PReq, (∀ p ∈ ps, p.remedy.winSec ≠ 0) ∧
+      clean (observe ps (pluginRun capExact [] ps)) = true ∧
+      groupFaithful (observeP ps (pluginRun capExact [] ps)) = false ∧
+      pluginRun capExact [] ps = [.noop, .noop, .early 429] ∧
+      holds capExact (observeS ps (pluginRun capExact [] ps)) = false := by
+  let r : Remedy := ⟨"r", 4, 1, 0, false, 0,
+    some ⟨some "X-Group", [(" a", 50, 1), ("a", 50, 1)], "block", 0, 1⟩, true⟩
+  refine ⟨[⟨r, [("X-Group", " a")], 1000500000000⟩, ⟨r, [("X-Group", " a")], 1000500000001⟩,
+           ⟨r, [("X-Group", "a")], 1000500000002⟩], ?_, ?_, ?_, ?_, ?_⟩
+  · intro p hp
+    simp only [List.mem_cons, List.not_mem_nil, or_false] at hp
+    rcases hp with rfl | rfl | rfl <;> decide
+  all_goals decide +kernel
+
 /-! ### Non-vacuity -/
+
+/-- `group_counter_iff` / `plugin_spec_holds_groups_partial`: production wiring, "Gold" (50 %) and "gold" (20 %) of
+    10 are different groups with different counters: "Gold" uses up its 5, "gold" still gets its own 2; an
+    unknown "TeamA"/"teama" pair under `use_default_allocation` (30 % → 3 each) likewise. -/
+example :
+    let r : Remedy := ⟨"r", 10, 1, 0, false, 0,
+      some ⟨some "X-Group", [("Gold", 50, 1), ("gold", 20, 1)], "use_default_allocation", 30, 1⟩, true⟩
+    let q (v : String) (i : Nat) : PReq := ⟨r, [("X-Group", v)], 1000500000000 + i⟩
+    let ps : List PReq := [q "Gold" 0, q "Gold" 1, q "Gold" 2, q "Gold" 3, q "Gold" 4, q "Gold" 5,
+      q "gold" 6, q "gold" 7, q "gold" 8, q "TeamA" 9, q "TeamA" 10, q "TeamA" 11, q "TeamA" 12, q "teama" 13]
+    pluginRun capExact [] ps = [.noop, .noop, .noop, .noop, .noop, .early 429, .noop, .noop, .early 429,
+      .noop, .noop, .noop, .early 429, .noop] ∧
+    groupFaithful (observeP ps (pluginRun capExact [] ps)) = true ∧
+    holds capExact (observeS ps (pluginRun capExact [] ps)) = true := by
+  decide +kernel
+
 
 /-- `spec_holds`/`bound`/`exact`: a history in the domain with passes AND a rejection in one window, a window
     roll-over exactly ON the grid boundary (1001.0 s) and two keys. -/
@@ -312,6 +407,15 @@ example :
     (runL capExact [] rs).map (·.pass) = [true, true, true, true, false] := by
   decide
 
+/-- the former F09b witness: 100 × 7 % — the code's cap is 7, the 8th request of the window is rejected. -/
+example :
+    let wd : WindowData := ⟨1000000000, 100, .pct 7 1, false, 0⟩
+    let rs : List (Req Unit) := (List.range 9).map (fun i => ⟨(), 1000500000000 + i, wd⟩)
+    capUnits 100 (.pct 7 1) = 7 ∧ clean (runL capUnits [] rs) = true ∧
+    (runL capUnits [] rs).map (·.pass) = [true, true, true, true, true, true, true, false, false] ∧
+    holds capExact (runL capUnits [] rs) = true := by
+  decide
+
 /-- the former F09d witness (allowed 2 per 1 s, spill-over on; window 1000 used up; scrapes in the idle windows
     1001–1003; requests in window 1004): the scrapes read 0 and change nothing — 2 pass, as without scrapes. -/
 example :
@@ -338,7 +442,7 @@ example :
 /-- plugin level: two groups with 25 % / 75 % of 4, an unknown group under `block`, configured status 503. -/
 example :
     let r : Remedy := ⟨"r", 4, 1, 503, false, 0,
-      some ⟨some "X-Group", [("a", 25, 1), ("b", 75, 1)], "block", 0, 1⟩⟩
+      some ⟨some "X-Group", [("a", 25, 1), ("b", 75, 1)], "block", 0, 1⟩, true⟩
     let ps : List PReq := [⟨r, [("X-Group", "a")], 1000500000000⟩, ⟨r, [("X-Group", "a")], 1000500000001⟩,
       ⟨r, [("X-Group", "b")], 1000500000002⟩, ⟨r, [("X-Group", "zzz")], 1000500000003⟩]
     pluginRun capExact [] ps = [.noop, .early 503, .noop, .early 503] ∧
